@@ -103,17 +103,25 @@ package tan
 // any write, sync or close of the temporary file, or any read of the source, has failed.
 //@ ghost var gWriteFailed bool
 //@ ghost var gReadFailed bool
+// gDirDirty: a directory entry was created, renamed or removed and the directory has not been
+// fsynced since; gDirHandles: the file handles that are open directories
+//@ ghost var gDirDirty bool
+//@ ghost var gDirHandles set
 //@ extern github.com/lni/vfs (f File) Sync
 //@ ghostset gWriteFailed := old(gWriteFailed) || result != nil
+//@ ghostset gDirDirty := old(gDirDirty) && !(gDirHandles[obj(f)] && result == nil)
 //@ extern github.com/lni/vfs (f File) Close
 //@ ghostset gWriteFailed := old(gWriteFailed) || result != nil
 //@ extern github.com/lni/vfs (fs FS) Create
-//@ ensures result1 == nil ==> result0 != nil
+//@ ensures result1 == nil ==> result0 != nil && !gDirHandles[obj(result0)]
 //@ ghostset gWriteFailed := old(gWriteFailed) || result1 != nil
+//@ ghostset gDirDirty := true
 //@ extern github.com/lni/vfs (fs FS) Rename
 //@ requires !gWriteFailed && !gReadFailed
+//@ ghostset gDirDirty := true
 //@ extern github.com/lni/vfs (fs FS) RemoveAll
 //@ ghostset gWriteFailed := old(gWriteFailed) || result != nil
+//@ ghostset gDirDirty := true
 //@ func makeFilename [C10]
 //@ trusted pure path computation
 //@ func makeBootstrapFilename [C10]
@@ -145,17 +153,72 @@ package tan
 //@ func (d *db) rebuildLog [C10]
 //@ noframe
 //@ nobounds
-//@ requires !gWriteFailed && !gReadFailed
-//@ modifies gWriteFailed, gReadFailed
+//@ requires !gWriteFailed && !gReadFailed && !gDirDirty && gDirHandles[obj(d.dataDir)]
+//@ modifies gWriteFailed, gReadFailed, gDirDirty
+//@ ensures err == nil ==> !gDirDirty
 
 //@ func saveBootstrap [C10]
 //@ noframe
 //@ nobounds
-//@ requires !gWriteFailed && !gReadFailed
-//@ modifies gWriteFailed
+//@ requires !gWriteFailed && !gReadFailed && !gDirDirty && gDirHandles[obj(dataDir)]
+//@ modifies gWriteFailed, gDirDirty
+//@ ensures err == nil ==> !gDirDirty
 
+//@ func removeBootstrap [C10]
+//@ noframe
+//@ nobounds
+//@ requires !gDirDirty && gDirHandles[obj(dataDir)]
+//@ modifies gWriteFailed, gDirDirty
+//@ ensures result == nil ==> !gDirDirty
+//@ extern github.com/lni/vfs (fs FS) Stat
+//@ extern github.com/cockroachdb/errors/oserror IsNotExist
+
+// setCurrentFile leaves the directory dirty: its callers sync the directory
 //@ func setCurrentFile [C10]
 //@ noframe
 //@ nobounds
 //@ requires !gWriteFailed && !gReadFailed
-//@ modifies gWriteFailed
+//@ modifies gWriteFailed, gDirDirty
+
+// a new MANIFEST becomes current only together with a directory sync
+//@ func (vs *versionSet) create [C10]
+//@ noframe
+//@ nobounds
+//@ requires !gWriteFailed && !gReadFailed && !gDirDirty && gDirHandles[obj(dir)]
+//@ modifies gWriteFailed, gDirDirty
+//@ ensures result == nil ==> !gDirDirty
+
+//@ func (vs *versionSet) logAndApply [C10]
+//@ noframe
+//@ nobounds
+//@ requires !gWriteFailed && !gReadFailed && !gDirDirty && gDirHandles[obj(dir)] && vs.writing
+//@ modifies gWriteFailed, gDirDirty
+//@ ensures result == nil ==> !gDirDirty
+
+//@ func (vs *versionSet) init [C10]
+//@ trusted in-memory initialisation
+//@ func (vs *versionSet) append [C10]
+//@ trusted in-memory version list
+//@ func (vs *versionSet) getNextFileNum [C10]
+//@ trusted in-memory counter
+//@ func (vs *versionSet) currentVersion [C10]
+//@ trusted in-memory
+//@ func (vs *versionSet) logUnlock [C10]
+//@ trusted in-memory lock state (condition variable)
+//@ func (vs *versionSet) createManifest [C10]
+//@ trusted creates and fills a new MANIFEST file (the file is synced by the caller)
+//@ modifies gWriteFailed, gDirDirty
+//@ ghostset gDirDirty := true
+//@ ghostset gWriteFailed := old(gWriteFailed) || err != nil
+//@ func (b *bulkVersionEdit) accumulate [C10]
+//@ trusted in-memory
+//@ func (b *bulkVersionEdit) apply [C10]
+//@ trusted in-memory
+//@ func (v *versionEdit) encode [C10]
+//@ trusted encodes the edit into the MANIFEST record writer
+//@ ghostset gWriteFailed := old(gWriteFailed) || result != nil
+//@ func (w *writer) flush [C10]
+//@ trusted flushes the record writer
+//@ ghostset gWriteFailed := old(gWriteFailed) || result != nil
+//@ func (w *writer) size [C10]
+//@ trusted in-memory
